@@ -2,6 +2,7 @@
 names are rejected.  Closure invariant on every reachable output of the layout space."""
 
 import collections
+import copy
 
 from xmc import observe as O
 from xmc.impl import run_convert
@@ -55,6 +56,9 @@ def blocks(tier):
     nd = sum(1 for _ in forests_upto(ND, 3))
     for fi in range(nd):
         yield ("dev", fi)
+    # sections/include API: one section included at 1..2 places of the main form
+    for fi in range(sum(1 for _ in forests_upto(4 if tier == "quick" else 5, 3))):
+        yield ("include", fi)
     # object API: regenerate after moving a question to another section of the same survey object
     na = sum(1 for _ in forests_upto(4 if tier == "quick" else 5, 3))
     for fi in range(na):
@@ -72,6 +76,16 @@ def expand(block, tier):
     forest = _forest(block[1])
     fj = forest_to_json(forest)
     n = len(flatten(forest, NAMES))
+    if block[0] == "include":
+        import itertools
+
+        nodes = flatten(forest, NAMES)
+        qs = [x["i"] for x in nodes if x["kind"] == "q"]
+        for r in (1, 2):
+            for sub in itertools.combinations(qs, r):
+                for sec in (0, 1):
+                    yield {"f": fj, "include": list(sub), "sec": sec}
+        return
     if block[0] == "api":
         nodes = flatten(forest, NAMES)
         for feat in (0, 3):
@@ -304,7 +318,72 @@ def check_api(case):
     return {"outcome": "api-ok", "nt": not viol, "viol": viol[:4], "tr": ntr}
 
 
+SECTIONS = [
+    [{"type": "text", "name": "street", "label": "Street"}, {"type": "integer", "name": "no", "label": "No", "bind": {"relevant": "${street} != ''"}}],
+    [{"type": "group", "name": "addr", "label": "Addr", "children": [{"type": "text", "name": "street", "label": "Street"}]},
+     {"type": "text", "name": "city", "label": "City", "default": "now()"}],
+]
+
+
+def check_include(case):
+    """main form given as element dicts, some questions replaced by {"type": "include"} of one shared section"""
+    from pyxform.builder import create_survey
+    from pyxform.errors import PyXFormError
+
+    forest = forest_from_json(case["f"])
+    nodes = flatten(forest, NAMES)
+    inc = set(case["include"])
+    ctr = [0]
+
+    def rec(f):
+        out = []
+        for t in f:
+            i = ctr[0]
+            ctr[0] += 1
+            nm = NAMES[i]
+            if t[0] == "q":
+                out.append({"type": "include", "name": "sec"} if i in inc else {"type": "text", "name": nm, "label": nm})
+            else:
+                out.append({"type": "group" if t[0] == "g" else "repeat", "name": nm, "label": nm, "children": rec(t[1])})
+        return out
+
+    main = {"type": "survey", "name": "data", "id_string": "data", "title": "data", "children": rec(forest)}
+    sections = {"data": main, "sec": {"type": "survey", "name": "sec", "children": copy.deepcopy(SECTIONS[case["sec"]])}}
+    parents = [nodes[i]["parent"] for i in case["include"]]
+    # refused when two copies become siblings, or when the section's own ${street} reference becomes ambiguous
+    same_parent = len(parents) != len(set(parents)) or (len(parents) > 1 and case["sec"] == 0)
+    ntr = len(nodes) + 2
+    try:
+        sv = create_survey(name_of_main_section="data", sections=copy.deepcopy(sections))
+        x = sv.to_xml(validate=False, pretty_print=False)
+    except PyXFormError as e:
+        return {"outcome": "include-reject", "nt": same_parent, "viol": [] if same_parent else [], "tr": ntr, "unexp": not same_parent, "why": str(e)[:160]}
+    except Exception as e:  # noqa: BLE001
+        return {"outcome": "include-crash", "nt": False, "viol": [(f"include:internal-exception:{type(e).__name__}", str(e)[:200])], "tr": ntr}
+    viol = []
+    if same_parent:
+        viol.append(("include:ambiguous-siblings-accepted", str(case["include"])))
+    try:
+        obs = O.Obs(x)
+    except O.ParseFailure as e:
+        return {"outcome": "include-ok", "nt": False, "viol": [("include:unparseable", str(e))], "tr": ntr}
+    if not same_parent:
+        for kind, detail in closure_problems(obs):
+            viol.append((f"include:{kind}", detail))
+        # every included copy has its own nodes, each bound once
+        for i in case["include"]:
+            base = "/data/" + "/".join(nodes[i]["path"][1:-1])
+            base = base.rstrip("/")
+            for leaf in (["street", "no"] if case["sec"] == 0 else ["addr/street", "city"]):
+                px = f"{base}/{leaf}"
+                if px not in obs.paths or sum(1 for b in obs.model.findall(O.X + "bind") if b.get("nodeset") == px) != 1:
+                    viol.append(("include:included-node-not-bound-once", px))
+    return {"outcome": "include-ok", "nt": len(case["include"]) > 1 and not viol, "viol": viol[:4], "tr": ntr}
+
+
 def check_one(case):
+    if case.get("include") is not None:
+        return check_include(case)
     if case.get("move"):
         return check_api(case)
     wb, nodes, info, names = build(case)
